@@ -90,6 +90,18 @@ func (s *S3Proxy) ListBuckets(ctx context.Context, input s3response.ListBucketsI
 
 	var buckets []s3response.ListAllMyBucketsEntry
 	for _, b := range output.Buckets {
+		if !input.IsAdmin {
+			// an account that is not an admin sees the buckets it owns: the
+			// owner is part of the ACL the gateway keeps for the bucket
+			data, err := s.GetBucketAcl(ctx, &s3.GetBucketAclInput{Bucket: b.Name})
+			if err != nil {
+				continue
+			}
+			var acl struct{ Owner string }
+			if len(data) == 0 || json.Unmarshal(data, &acl) != nil || acl.Owner != input.Owner {
+				continue
+			}
+		}
 		buckets = append(buckets, s3response.ListAllMyBucketsEntry{
 			Name:         *b.Name,
 			CreationDate: *b.CreationDate,
